@@ -46,6 +46,11 @@ ASSUMPTIONS = [
     "2h on that clock). A clock step or a starved timer task that makes that much clock time pass while a probe is "
     "outstanding costs the peer its time - dropping it then is consistent with the property; what must never happen is "
     "a teardown in the very tick that sends the probe, or with nothing outstanding while a frame arrived within 2h. "
+    "A teardown is judged premature only if the peer had less than its time on BOTH clocks (time.time() and real "
+    "elapsed time): after a BACKWARDS step a later frame stamps an earlier _message_last_time than the probe did, and "
+    "the 'message last time' test may then drop a peer whose probe looks young on the stepped clock although more than "
+    "2h have really passed (observed on the clean tree, h = 5, clock stepped back 15 s while a probe was outstanding) "
+    "- consistent with the property. "
     "The step theorems (no_outstanding_tick_never_disconnects, outstanding_tick, live_peer_spared) hold for ANY tick "
     "times - forwards jumps, backwards steps, a standing clock; only the 'how soon' bounds (testreq_sent, "
     "dead_peer_disconnected) assume tick gaps <= delta. The scenarios feed such clocks: one gap of h+1 .. 100h at the "
@@ -377,6 +382,7 @@ def _run_scenario(impl: S.Impl, spec):
             if spec.get("bytes"):
                 if cur.sock:   # a closed transport delivers nothing
                     for step in feed_bytes(impl, ev, spec["bytes"]["chunk"], pre, cur):
+                        step["mono"] = mono
                         line.append(step)
                         for e in step["eff"]:
                             if e.startswith("W="):
@@ -411,7 +417,8 @@ def _run_scenario(impl: S.Impl, spec):
         impl.apply("all", ev)
         eff, post = impl.effects(), impl.dump()
         nxt = parse_post(post)
-        line.append({"t": now, "kind": kind, "ev": ev, "pre": pre, "eff": eff, "post": post, "a_pre": cur, "a_post": nxt})
+        line.append({"t": now, "mono": mono, "kind": kind, "ev": ev, "pre": pre, "eff": eff, "post": post, "a_pre": cur,
+                     "a_post": nxt})
         for e in eff:
             if e.startswith("W="):
                 mt, fs = S.parse_msg_tok(e[2:])
@@ -706,6 +713,7 @@ def judge(spec, line):
     delta = spec_delta(spec)
     t0 = T0 + spec["t0_off"]
     last_arrival = t0      # time of the last valid inbound frame (the scripted peer only sends valid ones)
+    last_arrival_m = t0    # … in real (monotonic) time; differs from the clock's view only when the clock is stepped
     probe_due_from = t0    # start of the current "nothing received, none outstanding" period
     outstanding = None     # (id:str, t_sent) of the TestRequest not yet echoed
     attempted = False      # a probe was due but send_test_req() raised
@@ -716,6 +724,10 @@ def judge(spec, line):
     up = True
     for k, s in enumerate(line):
         t, eff = s["t"], s["eff"]
+        tm = s.get("mono", t)
+        # "the peer had less than X": on BOTH clocks (time.time() and real elapsed time) - a stepped clock must not
+        # turn a peer that really had its time into a victim, nor the other way round
+        within = lambda wall0, mono0, bound: max(t - wall0, tm - mono0) <= bound
         fr = frames(s)
         if not up:
             if eff and s["kind"] == "tick":
@@ -747,20 +759,20 @@ def judge(spec, line):
                     yield ("C12-testreqid-not-time", "TestReqID is not int(time.time())", {"step": k, "id": tid})
                 if t - last_arrival <= H - 1000:
                     yield ("C12-testrequest-early", "TestRequest although a frame arrived less than h - 1 s ago", {"step": k})
-                outstanding = (tid, t)
+                outstanding = (tid, t, tm)
             if disconnected:
                 # liveness by echo: a watchdog disconnect needs a TestRequest unanswered for more than 2h - 1 s
                 if outstanding is None:
                     # legitimate only as "nothing valid for 2h" (e.g. the TestRequest could not be sent)
                     # … or the connection is not ACTIVE (awaiting / serving a resend): it never probes there
-                    if t - last_arrival <= 2 * H or (awaiting is None and not start_stuck and not attempted):
+                    if within(last_arrival, last_arrival_m, 2 * H) or (awaiting is None and not start_stuck and not attempted):
                         yield ("C12-disconnect-nothing-outstanding", "the watchdog disconnected although no TestRequest "
                                "was unanswered", {"step": k, "t": t - t0})
-                elif t - outstanding[1] <= 2 * H - 1000:
+                elif within(outstanding[1], outstanding[2], 2 * H - 1000):
                     yield ("C12-disconnect-before-deadline", "the watchdog disconnected although the TestRequest was sent "
                            f"only {t - outstanding[1]} ms ago (<= 2h - 1 s)", {"step": k})
                 # liveness by traffic (judged separately): a valid frame within the last two intervals
-                if t - last_arrival <= 2 * H:
+                if within(last_arrival, last_arrival_m, 2 * H):
                     yield ("C12-traffic-does-not-answer-testrequest", "the watchdog disconnected a peer whose last valid "
                            f"frame arrived {t - last_arrival} ms ago (<= 2h): inbound traffic must count as a sign of "
                            "life even when a TestRequest stays unanswered (fix e3d9663)", {"step": k, "t": t - t0})
@@ -823,7 +835,7 @@ def judge(spec, line):
                 if reached >= awaiting:
                     awaiting = None
             if up and s["a_post"].state > 3 and accepted:
-                last_arrival = t
+                last_arrival, last_arrival_m = t, tm
                 attempted = False if s["a_post"].test_req_id is None else attempted
                 if not outstanding:
                     probe_due_from = t
